@@ -19,10 +19,10 @@ Proof. induction 1 as [o|o l ops HB|]; [discriminate|eapply Blk_nonempty; eauto|
 
 Section DRUN.
 Variable kd : rkind.
-Lemma disk_J0 N ram disk L0 : 1 <= N -> 1 <= ram -> DiskBlk.DBlk ram 0 (N - 1) L0 ->
+Lemma disk_J0 N ram disk L0 : 1 <= N -> 0 <= ram -> (2 <= N -> 1 <= ram) -> DiskBlk.DBlk ram 0 (N - 1) L0 ->
   exists T, DiskBridge3.J N ram (map inj L0) kd ram disk T {| ob := ORevF kd N ram disk (init_r (map inj L0)); started := false |} mon0.
 Proof.
-  intros HN Hram HB. set (L := map inj L0).
+  intros HN Hram Hram1 HB. set (L := map inj L0).
   pose proof (DBlk_nonempty _ _ _ _ HB) as Hne.
   assert (Hprev : exists prev, prevop L0 0 = Some prev).
   { unfold prevop. destruct (rev L0) as [|z r] eqn:E; [|eauto]. apply (f_equal (@rev _)) in E. rewrite rev_involutive in E. contradiction. }
@@ -59,22 +59,29 @@ Proof.
 Qed.
 End DRUN.
 
+(* the op lists under the whole documented domain (snapshots_in_ram = 0 is accepted for max_n = 1: a single step) *)
+Lemma disk_seq N ram disk uf ub wd rd : 1 <= N -> 0 <= ram -> (2 <= N -> 1 <= ram) ->
+  exists L0, sequence KDiskRevolve N ram disk uf ub wd rd = Ok (map inj L0) /\ DiskBlk.DBlk ram 0 (N - 1) L0.
+Proof.
+  intros HN Hram Hram1. destruct (Z.eq_dec ram 0) as [->|Hr0].
+  - assert (N = 1) by lia. subst N. exists (RevBlk.adj 0). split; [reflexivity|apply DiskBlk.DZero].
+  - destruct (disk_revolve_top_total (N - 1) ram wd rd uf ub ltac:(lia) ltac:(lia)) as [L HL].
+    pose proof HL as HL'. unfold disk_revolve_top in HL'. destruct (get_opt_0_table (N - 1) ram uf ub) as [t|]; [|discriminate]. cbn [bind] in HL'.
+    destruct (get_opt_inf_table (N - 1) ram uf ub wd rd t) as [ti|]; [|discriminate]. cbn [bind] in HL'.
+    destruct (disk_grammar _ _ _ _ _ _ _ _ _ HL' ltac:(lia) ltac:(lia)) as (L0 & -> & HB). exists L0. split; [exact HL|exact HB].
+Qed.
+
 Definition disk_xparams (N ram : Z) : xparams := {| xN := N; keep_all_deps := false; budget_ram := Some ram; budget_disk := None |}.
 
-Theorem disk_revolve_run N ram disk uf ub wd rd k : 1 <= N -> 1 <= ram ->
+Theorem disk_revolve_run N ram disk uf ub wd rd k : 1 <= N -> 0 <= ram -> (2 <= N -> 1 <= ram) ->
   exists o0 m ls, run_case (PRev KDiskRevolve N ram disk uf ub wd rd) (disk_xparams N ram) (repeat Next k) = Ok (o0, m, ls) /\
     no_raise ls /\ DiskBridge3.leftover_or_ok m.
 Proof.
-  intros HN Hram.
-  destruct (disk_revolve_top_total (N - 1) ram wd rd uf ub ltac:(lia) Hram) as [L HL].
-  assert (Hg : exists L0, L = map inj L0 /\ DiskBlk.DBlk ram 0 (N - 1) L0).
-  { unfold disk_revolve_top in HL. destruct (get_opt_0_table (N - 1) ram uf ub) as [t|]; [|discriminate]. cbn [bind] in HL.
-    destruct (get_opt_inf_table (N - 1) ram uf ub wd rd t) as [ti|]; [|discriminate]. cbn [bind] in HL.
-    apply (disk_grammar _ _ _ _ _ _ _ _ _ HL); lia. }
-  destruct Hg as (L0 & -> & HB).
-  unfold run_case, Sched.construct, RevConv.construct. change (sequence KDiskRevolve N ram disk uf ub wd rd) with (disk_revolve_top (N - 1) ram wd rd uf ub). rewrite HL. cbn [bind].
+  intros HN Hram Hram1.
+  destruct (disk_seq N ram disk uf ub wd rd HN Hram Hram1) as (L0 & HL & HB).
+  unfold run_case, Sched.construct, RevConv.construct. rewrite HL. cbn [bind].
   destruct (Z.ltb_spec N 1); [lia|]. destruct (Z.ltb_spec ram (Z.min 1 (N - 1))); [lia|]. cbn [bind].
-  destruct (disk_J0 KDiskRevolve N ram disk L0 HN Hram HB) as [T HJ0].
+  destruct (disk_J0 KDiskRevolve N ram disk L0 HN Hram Hram1 HB) as [T HJ0].
   pose proof (DiskBridge3.run_nexts2 N ram ltac:(lia) (map inj L0) KDiskRevolve ram disk T k _ _ HJ0) as Hrun.
   change (DiskBridge2.pD N ram) with (disk_xparams N ram) in Hrun.
   destruct (run_ops (disk_xparams N ram) _ mon0 (repeat Next k)) as [[s' m'] ls]. destruct Hrun as [HJ Hnr].
@@ -84,17 +91,27 @@ Print Assumptions disk_revolve_run.
 
 (* PeriodicDiskRevolve: the same, through the same grammar *)
 Require Import PeriodGen.
-Theorem periodic_run N ram disk uf ub wd rd k : 1 <= N -> 1 <= ram ->
+Lemma periodic_seq N ram disk uf ub wd rd : 1 <= N -> 0 <= ram -> (2 <= N -> 1 <= ram) ->
+  exists L0, sequence KPeriodic N ram disk uf ub wd rd = Ok (map inj L0) /\ DiskBlk.DBlk ram 0 (N - 1) L0.
+Proof.
+  intros HN Hram Hram1. destruct (Z.eq_dec ram 0) as [->|Hr0].
+  - assert (N = 1) by lia. subst N. exists (RevBlk.adj 0 ++ [RevBlk.ODM 0]). split; [|apply DiskBlk.DMem; apply RevBlk.B0].
+    change (sequence KPeriodic 1 0 disk uf ub wd rd) with (do p <- periodic_top 0 0 wd rd uf ub; Ok (fst p)).
+    unfold periodic_top. cbn. replace (Pos.to_nat 4) with 4%nat by reflexivity. cbn. reflexivity.
+  - destruct (periodic_top_total (N - 1) ram wd rd uf ub ltac:(lia) ltac:(lia)) as [L HL].
+    destruct (periodic_grammar (N - 1) ram wd rd uf ub L _ ltac:(lia) ltac:(lia) HL (mxrr_pos _ _ _ _)) as (L0 & -> & HB).
+    exists L0. split; [|exact HB].
+    change (sequence KPeriodic N ram disk uf ub wd rd) with (do p <- periodic_top (N - 1) ram wd rd uf ub; Ok (fst p)). rewrite HL. reflexivity.
+Qed.
+Theorem periodic_run N ram disk uf ub wd rd k : 1 <= N -> 0 <= ram -> (2 <= N -> 1 <= ram) ->
   exists o0 m ls, run_case (PRev KPeriodic N ram disk uf ub wd rd) (disk_xparams N ram) (repeat Next k) = Ok (o0, m, ls) /\
     no_raise ls /\ DiskBridge3.leftover_or_ok m.
 Proof.
-  intros HN Hram.
-  destruct (periodic_top_total (N - 1) ram wd rd uf ub ltac:(lia) Hram) as [L HL].
-  destruct (periodic_grammar (N - 1) ram wd rd uf ub L _ ltac:(lia) Hram HL (mxrr_pos _ _ _ _)) as (L0 & -> & HB).
-  unfold run_case, Sched.construct, RevConv.construct.
-  change (sequence KPeriodic N ram disk uf ub wd rd) with (do p <- periodic_top (N - 1) ram wd rd uf ub; Ok (fst p)). rewrite HL. cbn [bind fst].
+  intros HN Hram Hram1.
+  destruct (periodic_seq N ram disk uf ub wd rd HN Hram Hram1) as (L0 & HL & HB).
+  unfold run_case, Sched.construct, RevConv.construct. rewrite HL. cbn [bind].
   destruct (Z.ltb_spec N 1); [lia|]. destruct (Z.ltb_spec ram (Z.min 1 (N - 1))); [lia|]. cbn [bind].
-  destruct (disk_J0 KPeriodic N ram disk L0 HN Hram HB) as [T HJ0].
+  destruct (disk_J0 KPeriodic N ram disk L0 HN Hram Hram1 HB) as [T HJ0].
   pose proof (DiskBridge3.run_nexts2 N ram ltac:(lia) (map inj L0) KPeriodic ram disk T k _ _ HJ0) as Hrun.
   change (DiskBridge2.pD N ram) with (disk_xparams N ram) in Hrun.
   destruct (run_ops (disk_xparams N ram) _ mon0 (repeat Next k)) as [[s' m'] ls]. destruct Hrun as [HJ Hnr].
@@ -104,11 +121,11 @@ Print Assumptions periodic_run.
 
 
 (* ---- termination: after 2 |ops| + 2 requests the schedule is exhausted (is_exhausted True, further requests stop) ---- *)
-Lemma disk_cfg_terminates kd N ram disk L0 k : 1 <= N -> 1 <= ram -> DiskBlk.DBlk ram 0 (N - 1) L0 -> (2 * length L0 + 1 < k)%nat ->
+Lemma disk_cfg_terminates kd N ram disk L0 k : 1 <= N -> 0 <= ram -> (2 <= N -> 1 <= ram) -> DiskBlk.DBlk ram 0 (N - 1) L0 -> (2 * length L0 + 1 < k)%nat ->
   let '(s', m, ls) := run_ops (disk_xparams N ram) {| ob := ORevF kd N ram disk (init_r (map inj L0)); started := false |} mon0 (repeat Next k) in
   no_raise ls /\ DiskBridge3.leftover_or_ok m /\ is_exhausted s' = true.
 Proof.
-  intros HN Hram HB Hk. destruct (disk_J0 kd N ram disk L0 HN Hram HB) as [T HJ0].
+  intros HN Hram Hram1 HB Hk. destruct (disk_J0 kd N ram disk L0 HN Hram Hram1 HB) as [T HJ0].
   pose proof (DiskBridge3.run_nexts2 N ram ltac:(lia) (map inj L0) kd ram disk T k _ _ HJ0) as Hrun.
   pose proof (DiskBridge3.run_nexts2_fin N ram ltac:(lia) (map inj L0) kd ram disk T k _ _ HJ0) as Hfin.
   change (DiskBridge2.pD N ram) with (disk_xparams N ram) in Hrun, Hfin.
@@ -116,32 +133,24 @@ Proof.
   split; [exact Hnr|]. split; [exact (DiskBridge3.J_verdict _ _ _ _ _ _ _ _ _ HJ)|]. apply Hfin. right.
   unfold RevBridge3.muS. cbn [ob init_r finished idx pend length]. rewrite map_length. lia.
 Qed.
-Theorem disk_revolve_terminates N ram disk uf ub wd rd : 1 <= N -> 1 <= ram ->
+Theorem disk_revolve_terminates N ram disk uf ub wd rd : 1 <= N -> 0 <= ram -> (2 <= N -> 1 <= ram) ->
   exists L K, sequence KDiskRevolve N ram disk uf ub wd rd = Ok L /\ forall k, (K <= k)%nat ->
   let '(s', m, ls) := run_ops (disk_xparams N ram) {| ob := ORevF KDiskRevolve N ram disk (init_r L); started := false |} mon0 (repeat Next k) in
   no_raise ls /\ DiskBridge3.leftover_or_ok m /\ is_exhausted s' = true.
 Proof.
-  intros HN Hram.
-  destruct (disk_revolve_top_total (N - 1) ram wd rd uf ub ltac:(lia) Hram) as [L HL].
-  assert (Hg : exists L0, L = map inj L0 /\ DiskBlk.DBlk ram 0 (N - 1) L0).
-  { pose proof HL as HL'. unfold disk_revolve_top in HL'. destruct (get_opt_0_table (N - 1) ram uf ub) as [t|]; [|discriminate]. cbn [bind] in HL'.
-    destruct (get_opt_inf_table (N - 1) ram uf ub wd rd t) as [ti|]; [|discriminate]. cbn [bind] in HL'.
-    apply (disk_grammar _ _ _ _ _ _ _ _ _ HL'); lia. }
-  destruct Hg as (L0 & -> & HB). exists (map inj L0), (2 * length L0 + 2)%nat. split; [exact HL|]. intros k Hk.
-  exact (disk_cfg_terminates KDiskRevolve N ram disk L0 k HN Hram HB ltac:(lia)).
+  intros HN Hram Hram1. destruct (disk_seq N ram disk uf ub wd rd HN Hram Hram1) as (L0 & HL & HB).
+  exists (map inj L0), (2 * length L0 + 2)%nat. split; [exact HL|]. intros k Hk.
+  exact (disk_cfg_terminates KDiskRevolve N ram disk L0 k HN Hram Hram1 HB ltac:(lia)).
 Qed.
 Print Assumptions disk_revolve_terminates.
-Theorem periodic_terminates N ram disk uf ub wd rd : 1 <= N -> 1 <= ram ->
+Theorem periodic_terminates N ram disk uf ub wd rd : 1 <= N -> 0 <= ram -> (2 <= N -> 1 <= ram) ->
   exists L K, sequence KPeriodic N ram disk uf ub wd rd = Ok L /\ forall k, (K <= k)%nat ->
   let '(s', m, ls) := run_ops (disk_xparams N ram) {| ob := ORevF KPeriodic N ram disk (init_r L); started := false |} mon0 (repeat Next k) in
   no_raise ls /\ DiskBridge3.leftover_or_ok m /\ is_exhausted s' = true.
 Proof.
-  intros HN Hram.
-  destruct (periodic_top_total (N - 1) ram wd rd uf ub ltac:(lia) Hram) as [L HL].
-  destruct (periodic_grammar (N - 1) ram wd rd uf ub L _ ltac:(lia) Hram HL (mxrr_pos _ _ _ _)) as (L0 & -> & HB).
-  exists (map inj L0), (2 * length L0 + 2)%nat. split.
-  - change (sequence KPeriodic N ram disk uf ub wd rd) with (do p <- periodic_top (N - 1) ram wd rd uf ub; Ok (fst p)). rewrite HL. reflexivity.
-  - intros k Hk. exact (disk_cfg_terminates KPeriodic N ram disk L0 k HN Hram HB ltac:(lia)).
+  intros HN Hram Hram1. destruct (periodic_seq N ram disk uf ub wd rd HN Hram Hram1) as (L0 & HL & HB).
+  exists (map inj L0), (2 * length L0 + 2)%nat. split; [exact HL|]. intros k Hk.
+  exact (disk_cfg_terminates KPeriodic N ram disk L0 k HN Hram Hram1 HB ltac:(lia)).
 Qed.
 Print Assumptions periodic_terminates.
 
